@@ -4,8 +4,8 @@ From Coq Require Import ZArith Bool Ascii String.
 From Coq Require Import List.
 Import ListNotations.
 From Verif Require Import Fmt.TextModel Fmt.TextProofs Fmt.X86FmtModel Fmt.X86FmtProofs Fmt.X86RegTableCheck.
-From Verif Require Import Fmt.X86InstModel Fmt.X86InstProofs Fmt.A64FmtModel Fmt.A64FmtProofs Fmt.A64InstProofs Fmt.LogLine Fmt.LogLineX86 Fmt.LogLineA64 Fmt.LabelVirt Fmt.DataNode Fmt.NodeLine Fmt.InstNamesCheck Fmt.Corollaries.
-From VerifGen Require Import X86RegTables InstNames.
+From Verif Require Import Fmt.X86InstModel Fmt.X86InstProofs Fmt.A64FmtModel Fmt.A64FmtProofs Fmt.A64InstProofs Fmt.LogLine Fmt.LogLineX86 Fmt.LogLineA64 Fmt.LabelVirt Fmt.DataNode Fmt.NodeLine Fmt.InstNamesCheck Fmt.Corollaries Fmt.NameDecode Fmt.X86Explain Fmt.RegList Fmt.RegListQ0 Fmt.RegListQ1 Fmt.RegListQ2 Fmt.RegListQ3.
+From VerifGen Require Import X86RegTables InstNames InstNameTables.
 Local Open Scope Z_scope.
 
 (* String::_op_number: every 64-bit value, bases 2/8/10/16, every combination of the sign/space/alternate/signed flags and
@@ -233,3 +233,52 @@ Theorem C20_x86_mem_virt_conservative : forall regtype regcasts f m,
   fmt_mem_virt [] regtype regcasts f m = fmt_operand f (OMem m).
 Proof. exact fmt_mem_virt_nil. Qed.
 Print Assumptions C20_x86_mem_virt_conservative.
+
+(* (T) the instruction-name tables of the instdb, dumped raw from the working tree: InstNameUtils::decode (5-bit packed small names,
+   prefix/suffix slices of the string table) transliterated into Coq gives, for EVERY instruction id of x86 and AArch64, the name of the
+   InstId enum; with kShowAliases an x86 name is either unchanged or expands ("cmov.b|nae|c", "jz|je") to exactly the name followed by
+   the aliases the enum declares for that id *)
+Theorem C20_inst_name_tables :
+  (forall k v n, nth_error (tl x86_name_index) k = Some v -> nth_error x86_inst_names k = Some n ->
+                 decode_name x86_name_strings false v = s n) /\
+  (forall k v n, nth_error (tl a64_name_index) k = Some v -> nth_error a64_inst_names k = Some n ->
+                 decode_name a64_name_strings false v = s n) /\
+  (forall k v n, nth_error (tl x86_name_index) k = Some v -> nth_error x86_inst_names k = Some n ->
+                 alias_ok x86_name_strings x86_enum_aliases v n = true).
+Proof.
+  exact (conj (proj2 (names_agree_sound _ _ _ x86_names_decode_ok))
+        (conj (proj2 (names_agree_sound _ _ _ a64_names_decode_ok)) (aliases_agree_sound _ _ _ _ x86_aliases_decode_ok))).
+Qed.
+Print Assumptions C20_inst_name_tables.
+
+(* kExplainImms: the line model with explanations (fmt_inst_ex, compared with AsmJit on every X line that carries the flag) is the
+   plain line when the flag is off; the shuffle-type explanations {a|b|c|d} determine the immediate byte; the comparison-predicate
+   tables of the vcmp.., vpcmp.., vpcom.. families name every predicate differently *)
+Theorem C20_x86_explain_conservative : forall f i, fmt_inst_ex false f i = fmt_inst f i.
+Proof. exact fmt_inst_ex_off. Qed.
+Print Assumptions C20_x86_explain_conservative.
+
+Theorem C20_x86_explain_shuf_roundtrip : forall u, 0 <= u < 256 ->
+  parse_shuf 2 (imm_shuf u 2 4) = Some u /\ parse_shuf 1 (imm_shuf u 1 8) = Some u.
+Proof. exact shuf_roundtrip. Qed.
+Print Assumptions C20_x86_explain_shuf_roundtrip.
+
+Theorem C20_x86_explain_predicates_injective : nodup_str vcmpx && nodup_str vpcmpx && nodup_str vpcomx = true.
+Proof. exact predicate_tables_injective. Qed.
+Print Assumptions C20_x86_explain_predicates_injective.
+
+(* whole lines printed through a Compiler (virtual registers as operands, memory base/index, {k} mask, rep register; "&" home prefix of
+   spilled registers — fmt_inst_virt, compared with format_instruction on the K commands): without virtual registers and home operands
+   it is the plain line, so every line theorem applies *)
+Theorem C20_x86_inst_virt_conservative : forall regtype regcasts f i, fmt_inst_virt [] regtype regcasts f i [] = fmt_inst f i.
+Proof. exact fmt_inst_virt_nil. Qed.
+Print Assumptions C20_x86_inst_virt_conservative.
+
+(* AArch32 register lists (arm::FormatterInternal::format_register_list: "{r0-r3, r5, r14}"): for ALL 65536 masks over r0..r15 the printed
+   list parses back to the mask (check_mask m := parse_reglist (fmt_reglist a32_reg m) = Some m, as a boolean; four exhaustive
+   vm_compute sweeps over zrange lo 16384 = [lo; lo+1; …; lo+16383]) *)
+Theorem C20_a32_reglist_roundtrip :
+  forallb check_mask (zrange 0 16384%nat) = true /\ forallb check_mask (zrange 16384 16384%nat) = true /\
+  forallb check_mask (zrange 32768 16384%nat) = true /\ forallb check_mask (zrange 49152 16384%nat) = true.
+Proof. exact (conj reglist_roundtrip_q0 (conj reglist_roundtrip_q1 (conj reglist_roundtrip_q2 reglist_roundtrip_q3))). Qed.
+Print Assumptions C20_a32_reglist_roundtrip.
